@@ -46,6 +46,9 @@ func runIdle(c Case, inTLS bool) idleOut {
 	pass := (*string)(nil)
 	if c.Auth {
 		p := marker + "-PASSWORD"
+		if c.BadPass {
+			p = marker + "-NOT-THE-PASSWORD"
+		}
 		pass = &p
 	}
 	elapse := func(i int) {
